@@ -74,4 +74,4 @@ require (
 	gorm.io/gorm v1.25.5 // indirect
 )
 
-replace github.com/siglens/siglens => /tmp/c19-wt
+replace github.com/siglens/siglens => /tmp/c12-wt
